@@ -23,11 +23,47 @@ import time
 VERIF = os.path.dirname(os.path.dirname(os.path.abspath(__file__)))
 COQ = os.path.join(VERIF, "coq")
 BUILD = os.path.join(VERIF, ".build")
-HARNESS = os.path.join(VERIF, "harness")
-REPO = "/repo"
+REPO = os.path.abspath(os.environ.get("VERIF_REPO", "/repo"))
 GUARD = "nitrogql_verif"
-CARGO_ENV = dict(os.environ, CARGO_NET_OFFLINE="true", RUSTFLAGS="--cfg " + GUARD,
-                 CARGO_TARGET_DIR=os.path.join(BUILD, "cargo-target"))
+if REPO == "/repo":
+    HARNESS = os.path.join(VERIF, "harness")
+    TARGET = os.path.join(BUILD, "cargo-target")
+    CLI_TARGET = os.path.join(BUILD, "cli-target")
+    CASES = os.path.join(BUILD, "cases")
+    EVID = os.path.join(VERIF, "evidence")
+    REPLAYS = os.path.join(VERIF, "replays")
+else:
+    # development aid: run the checks against a scratch worktree of /repo (VERIF_REPO=<dir>) without
+    # touching /repo; uses a generated copy of the harness manifest with the paths rewritten.
+    _tag = hashlib.sha1(REPO.encode()).hexdigest()[:10]
+    _alt = os.path.join(BUILD, "alt-" + _tag)
+    HARNESS = os.path.join(_alt, "harness")
+    TARGET = os.path.join(_alt, "cargo-target")
+    CLI_TARGET = os.path.join(_alt, "cli-target")
+    CASES = os.path.join(_alt, "cases")
+    EVID = os.path.join(_alt, "evidence")
+    REPLAYS = os.path.join(_alt, "replays")
+CARGO_ENV = dict(os.environ, CARGO_NET_OFFLINE="true", RUSTFLAGS="--cfg " + GUARD, CARGO_TARGET_DIR=TARGET)
+
+
+def _prepare_alt_harness():
+    if REPO == "/repo":
+        return
+    src = os.path.join(VERIF, "harness")
+    for root, dirs, files in os.walk(src):
+        dirs[:] = [d for d in dirs if d not in ("target",)]
+        rel = os.path.relpath(root, src)
+        os.makedirs(os.path.join(HARNESS, rel), exist_ok=True)
+        for f in files:
+            if f == "Cargo.lock":
+                continue
+            data = open(os.path.join(root, f), "rb").read()
+            if f.endswith(".toml"):
+                data = data.replace(b"/repo/", REPO.encode() + b"/").replace(
+                    b"/verif/.build/cargo-target", TARGET.encode())
+            dst = os.path.join(HARNESS, rel, f)
+            if not os.path.exists(dst) or open(dst, "rb").read() != data:
+                open(dst, "wb").write(data)
 
 FORBIDDEN = re.compile(
     r"\b(Admitted|admit|Axiom|Axioms|Parameter|Parameters|Conjecture|Conjectures|Admit\s+Obligations|"
@@ -190,6 +226,7 @@ def audit(ctx, vfiles, pinned_file):
 # ---------------------------------------------------------------- Rust side
 
 def harness_build(ctx, binname, timeout=1500):
+    _prepare_alt_harness()
     lock_src = os.path.join(REPO, "Cargo.lock")
     lock_dst = os.path.join(HARNESS, "Cargo.lock")
     if not os.path.exists(lock_dst):
@@ -209,7 +246,7 @@ def harness_build(ctx, binname, timeout=1500):
 def harness_run(ctx, binname, outdir, extra=(), timeout=3000):
     shutil.rmtree(outdir, ignore_errors=True)
     os.makedirs(outdir)
-    exe = os.path.join(BUILD, "cargo-target", "debug", binname)
+    exe = os.path.join(TARGET, "debug", binname)
     rc, out = sh(["timeout", str(timeout), exe, "--seed", str(ctx.seed), "--tier", ctx.tier, "--out", outdir]
                  + list(extra), cwd=outdir)
     if rc != 0:
@@ -220,13 +257,13 @@ def harness_run(ctx, binname, outdir, extra=(), timeout=3000):
 
 def cli_build(ctx, timeout=1500):
     """the real nitrogql-cli binary, from the working tree, into a private target dir"""
-    env = dict(CARGO_ENV, CARGO_TARGET_DIR=os.path.join(BUILD, "cli-target"))
+    env = dict(CARGO_ENV, CARGO_TARGET_DIR=CLI_TARGET)
     rc, out = sh(["timeout", str(timeout), "cargo", "build", "--offline", "-p", "nitrogql-cli",
                   "--manifest-path", os.path.join(REPO, "Cargo.toml")], env=env)
     if rc != 0:
         ctx.log("cli build FAILED")
         ctx.log(out[-3000:])
-    return rc == 0, os.path.join(BUILD, "cli-target", "debug", "nitrogql-cli")
+    return rc == 0, os.path.join(CLI_TARGET, "debug", "nitrogql-cli")
 
 
 # ---------------------------------------------------------------- evaluating case files
@@ -275,7 +312,7 @@ def eval_cases(ctx, outdir):
 # ---------------------------------------------------------------- verdicts
 
 def write_replay(ctx, payload):
-    d = os.path.join(VERIF, "replays", ctx.pid)
+    d = os.path.join(REPLAYS, ctx.pid)
     os.makedirs(d, exist_ok=True)
     blob = json.dumps(payload, sort_keys=True, indent=1, ensure_ascii=False)
     h = hashlib.sha1(blob.encode()).hexdigest()[:12]
@@ -319,8 +356,8 @@ def finish(ctx, level="proof"):
         "coverage": cov, "assumptions": ctx.assumptions, "wall_s": round(wall, 1),
         "violations": len(ctx.violations),
     }
-    os.makedirs(os.path.join(VERIF, "evidence"), exist_ok=True)
-    json.dump(ev, open(os.path.join(VERIF, "evidence", ctx.pid + ".json"), "w"), indent=1, ensure_ascii=False)
+    os.makedirs(EVID, exist_ok=True)
+    json.dump(ev, open(os.path.join(EVID, ctx.pid + ".json"), "w"), indent=1, ensure_ascii=False)
     for m in ctx.known:
         print(m)
     for what, p, found in ctx.violations:
@@ -374,7 +411,7 @@ def standard_check(ctx, *, targets, pinned, binname, gen=None, classify=None, se
         violation(ctx, "harness does not build against /repo (public API used by the tie changed)",
                   {"stage": "harness-build", "log_tail": out[-2500:]}, found_input=False)
         return finish(ctx)
-    outdir = os.path.join(BUILD, "cases", ctx.pid)
+    outdir = os.path.join(CASES, ctx.pid)
     ok, out = harness_run(ctx, binname, outdir, extra=harness_extra)
     if not ok:
         violation(ctx, "harness run failed (crash or abort of the implementation under the harness)",
